@@ -413,4 +413,7 @@ def check(ctx):
                                "unknown": n_unk, "allocating": n_alloc}  # fmt: skip
     rep.note(f"{len(rules)} rules; {n_res} with fully resolved emissions; {n_exact} proved by exact count; {n_set} by set inclusion only; "
              f"{n_unk} unknown; {n_alloc} allocate work wires")
+    from .c11_extra import extra
+
+    extra(ctx, rep)
     return rep
